@@ -99,6 +99,17 @@ def check_applications(out, name, make, c, M, N, cls='', tol=None, adjoint_cls=N
         except Exception as ex:
             out.v('exception %s %s.%s arg=%s %s' % (type(ex).__name__, name, how, arg, cls), d=inp, error=repr(ex))
             break
+    # the same product with an INTEGER-typed argument (integer-valued vectors are what index computations and counting
+    # arguments produce); the operator's values are real, so the result must not be computed in integer arithmetic
+    if x.size and np.all(x == np.round(x)):
+        stage('%s.dot(int)' % name)
+        try:
+            y = op.dot(x.astype(np.int64))
+            if not same(y, Y, tol if tol is not None else 1e-12):
+                out.v('%s.dot mismatch integer-typed argument arg=%s %s' % (name, arg, cls), d=inp, expected=c['Y'],
+                      got=np.asarray(y).tolist())
+        except Exception as ex:
+            out.v('exception %s %s.dot integer-typed argument arg=%s %s' % (type(ex).__name__, name, arg, cls), d=inp, error=repr(ex))
     if 'YT' in c:
         xt, YT = arg_of(c.get('XT', c['X']), arg, M), expect(c['YT'], arg, N)
         for how in ('T', 'H'):
@@ -138,6 +149,27 @@ def check_kron(c, out):
                           d=c['d'], expected=c['Y'], got=np.asarray(y).tolist())
             except Exception as ex:
                 out.v('exception %s apply_kronecker arg=%s' % (type(ex).__name__, arg), d=c['d'], error=repr(ex))
+    # integer-typed argument, non-integer operator: one factor halved (exact in binary), x passed as int64
+    if c['fam'] == 'kron':
+        x = arg_of(c['X'], arg, N)
+        first = next((k for k, kd in enumerate(kinds) if kd != 'none'), None)
+        if first is not None and x.size and np.all(x == np.round(x)):
+            ops2 = list(ops)
+            ops2[first] = as_kind(0.5 * mats[first], kinds[first])
+            Yh = 0.5 * expect(c['Y'], arg, M)
+            stage('KroneckerOperator(int argument)')
+            try:
+                routes = [('KroneckerOperator.dot', lambda: operators.KroneckerOperator(*ops2).dot(x.astype(np.int64)))]
+                if allsquare:
+                    routes.append(('apply_kronecker', lambda: kronecker.apply_kronecker(ops2, x.astype(np.int64))))
+                for rname, f in routes:
+                    y = f()
+                    if not same(y, Yh):
+                        out.v('%s mismatch integer-typed argument %s' % (rname, branch), d=c['d'], expected=Yh.tolist(),
+                              got=np.asarray(y).tolist())
+            except Exception as ex:
+                out.v('exception %s Kronecker product with integer-typed argument %s' % (type(ex).__name__, branch),
+                      d=c['d'], error=repr(ex))
     # tensor-product application: T[..., t] = reshape(X[:, t]); vec: no trailing axis
     X = mat(c['X'], N, cc)
     Y = mat(c['Y'], M, cc)
@@ -235,6 +267,11 @@ def check_solver(out, name, make, c, n, cls):
         got = op.dot(b)
         if not same(got, x, 1e-10):
             out.v('%s mismatch %s arg=%s' % (name, cls, arg), d=c['d'], expected=c['x'], got=np.asarray(got).tolist())
+        elif b.size and np.all(b == np.round(b)):
+            got = op.dot(b.astype(np.int64))
+            if not same(got, x, 1e-10):
+                out.v('%s mismatch integer-typed right-hand side %s arg=%s' % (name, cls, arg), d=c['d'], expected=c['x'],
+                      got=np.asarray(got).tolist())
     except Exception as ex:
         if n == 1 and isinstance(ex, AssertionError) and 'Diagonal must be a vector' in str(ex):
             out.v('exception AssertionError DiagonalOperator() n=1', d=c['d'], error=repr(ex), via=name)
@@ -249,6 +286,39 @@ def check_solve(c, out):
     kw = {'none': {}, 'symmetric': {'symmetric': True}, 'spd': {'spd': True}}[c['flags']]
     cls = 'matrix=%s flags=%s storage=%s' % (c['type'], c['flags'], 'dense' if c['fmt'] == 'dense' else 'sparse')
     check_solver(out, 'make_solver', lambda: operators.make_solver(A, **kw), c, n, cls)
+    check_saddle(c, out)
+
+
+def check_saddle(c, out):
+    """numeric predicate on spec-generated matrices: for the SPD matrix A of the case, the saddle-point matrix
+    K = [[A, C^T], [C, -delta I]] (C fixes the first and the last dof; delta = 0, 1e-12 or 3e-13: not powers of two, so that the huge multipliers do round) is symmetric, INDEFINITE and
+    well conditioned; the operator returned by make_solver(K, symmetric=True) must apply its inverse.  (Elimination
+    without pivoting breaks down on the tiny diagonal block.)"""
+    from pyiga import operators
+    import scipy.sparse
+    n = c['n']
+    if c['type'] != 'spd' or n < 2 or c['flags'] == 'spd':
+        return
+    A = mat(c['A'], n, n)
+    C = np.zeros((2, n))
+    C[0, 0] = C[1, n - 1] = 1.0
+    for delta in (0.0, 1e-12, 3e-13):
+        K = np.block([[A, C.T], [C, -delta * np.eye(2)]])
+        if np.linalg.cond(K) > 1e6:
+            continue
+        Kf = fmt_of(K, c['fmt'])
+        x0 = np.arange(1.0, n + 3.0)
+        b = K @ x0
+        stage('make_solver(saddle point)')
+        try:
+            y = np.asarray(operators.make_solver(Kf, symmetric=True).dot(b))
+            if y.shape != x0.shape or np.abs(y - x0).max() > 1e-8 * np.linalg.cond(K):
+                out.v('numeric: make_solver symmetric indefinite saddle-point matrix storage=%s delta=%s' % (
+                    'dense' if c['fmt'] == 'dense' else 'sparse', 'zero' if delta == 0 else 'tiny'),
+                    d=c['d'], error_max=float(np.abs(y - x0).max()), cond=float(np.linalg.cond(K)))
+        except Exception as ex:
+            out.v('exception %s make_solver symmetric indefinite saddle-point matrix storage=%s' % (
+                type(ex).__name__, 'dense' if c['fmt'] == 'dense' else 'sparse'), d=c['d'], error=repr(ex))
 
 
 def check_ksolve(c, out):
